@@ -25,6 +25,7 @@ func init() {
 			"(R11.5) the WASI / file-system state packages never write, at run time, through a package-level slice, map or pointer (which every instance of the process would share). NOT decided: isolation at the level of generated machine code (module-context offsets), file-descriptor level sharing through embedder-supplied objects.",
 		Assumptions: []string{"the lazily initialised caches listed in checker/props/c11.go are idempotent and guarded as stated there", "functions outside the module do not retain their arguments (writers listed in checker/core/alias.go)"},
 		Rules: []core.Rule{
+			{ID: "R11.6", Template: "T-OWN", Text: "no package-level slice of the run-time packages has spare capacity (an append on an alias would write the shared backing array)", Min: 1},
 			{ID: "R11.5", Template: "T-OWN", Text: "the WASI / file-system state packages never write through a package-level slice, map or pointer at run time", Min: 1},
 			{ID: "R11.0", Template: "anchor", Text: "shared-object types = struct types reachable from wasm.Module, from the engines' compiledModule types and the configuration types; run-time region = functions reachable from the instantiate/call/host-function roots", Min: 2},
 			{ID: "R11.1", Template: "T-WHOWRITES", Text: "no write to shared-object memory (or an alias of it) from the run-time region", Min: 1},
@@ -33,6 +34,7 @@ func init() {
 		},
 		Run: runC11,
 		Controls: []core.Control{
+			{Name: "exhausted-sentinel-with-capacity", File: "internal/sys/fs.go", Old: "var exhaustedDirents = [0]sys.Dirent{}", New: "var exhaustedDirents = make([]sys.Dirent, 0, 64)", Rule: "R11.6", Substr: "spare capacity"},
 			{Name: "dot-entries-shared-backing-array", File: "internal/sys/fs.go", Old: "\tresult := [2]sys.Dirent{}\n\tresult[0] = sys.Dirent{Name: \".\", Ino: dotIno, Type: fs.ModeDir}\n", New: "\tresult := sharedDots\n\tresult[0] = sys.Dirent{Name: \".\", Ino: dotIno, Type: fs.ModeDir}\n", Old2: "// exhaustedDirents avoids allocating empty slices.", New2: "var sharedDots = make([]sys.Dirent, 2)\n\n// exhaustedDirents avoids allocating empty slices.", Rule: "R11.5", Substr: "sharedDots"},
 			{Name: "datadrop-writes-module", File: "internal/engine/interpreter/interpreter.go", Old: "\t\tcase operationKindDataDrop:\n\t\t\tdataInstances[op.U1] = nil", New: "\t\tcase operationKindDataDrop:\n\t\t\tdataInstances[op.U1] = nil\n\t\t\tm.Source.DataSection[op.U1].Init = nil", Rule: "R11.1", Substr: "callNativeFunc"},
 			{Name: "instances-share-data-slice", File: "internal/wasm/store.go", Old: "\tm.DataInstances = make([][]byte, len(data))\n", New: "\tif sharedDataTemplate == nil {\n\t\tsharedDataTemplate = map[*DataSegment][][]byte{}\n\t}\n\tif len(data) > 0 && sharedDataTemplate[&data[0]] == nil {\n\t\tsharedDataTemplate[&data[0]] = make([][]byte, len(data))\n\t}\n\tif len(data) > 0 {\n\t\tm.DataInstances = sharedDataTemplate[&data[0]]\n\t} else {\n\t\tm.DataInstances = nil\n\t}\n", Rule: "R11.4", Substr: "package-level", Old2: "// applyData uses the given data segments", New2: "var sharedDataTemplate map[*DataSegment][][]byte\n\n// applyData uses the given data segments"},
@@ -107,6 +109,7 @@ func namedIn(c *core.Ctx, rel, name string) *types.Named {
 
 func runC11(c *core.Ctx) {
 	c.SSA()
+	checkNoSharedSpareCapacity(c)
 	checkGlobalWrites(c)
 	c.SSA()
 	// ---- shared-object types
